@@ -82,8 +82,10 @@ func c05Run(c *core.Ctx) *core.Result {
 					removePath(t, d)
 					ed = append(ed, "delete "+d)
 				case 2:
-					t.Get(d).Perm = 0700
-					ed = append(ed, "chmod "+d+" 700")
+					if e := t.Get(d); e.Type == tree.Dir {
+						e.Perm = 0700
+						ed = append(ed, "chmod "+d+" 700")
+					}
 				}
 			}
 			ed = append(ed, mutate(c.R, t, c.R.Intn(3), ho.EditOpt)...)
